@@ -28,6 +28,7 @@ type config struct {
 	queue  string
 	setQ   bool
 	layout int // how the handlers of the registered kinds are laid out in the pattern tree (see register)
+	pre    int // calls made on the new, stopped service before the handlers are registered: 1 ResetAll, 2 ResetAll after one handler-less pattern, 3 Reset
 	relife int // 1: a first life with default ownership, the explicit lists are set after its Shutdown; 2: set while that first life runs
 }
 
@@ -133,6 +134,16 @@ func observe(cfg config) (rec, error) {
 	}
 	s.SetLogger(nil)
 	s.SetWorkerCount(1)
+	// calls the stopped service refuses: they have no effect on what it later serves
+	switch cfg.pre {
+	case 1:
+		s.ResetAll()
+	case 2:
+		s.Handle("zz.early")
+		s.ResetAll()
+	case 3:
+		s.Reset([]string{cfg.sn + ".>"}, []string{cfg.sn + ".>"})
+	}
 	if pv := core.Catch(func() { register(s, cfg) }); pv != nil {
 		return nil, fmt.Errorf("registration (layout %d) panicked: %v", cfg.layout, pv)
 	}
@@ -250,7 +261,7 @@ func observe(cfg config) (rec, error) {
 		"judge": "all", "sn": core.Chars(cfg.sn), "rr": chlist(cfg.rr), "ra": chlist(cfg.ra),
 		"rrnil": cfg.rr == nil, "ranil": cfg.ra == nil, "hasRes": cfg.hasRes, "hasAcc": cfg.hasAcc,
 		"queue": core.Chars(qexp), "subs": subs, "resets": resets, "served": served,
-		"dbg": fmt.Sprintf("name=%q resources=%q access=%q hasRes=%v hasAcc=%v layout=%d queue=%q -> subs=%q", cfg.sn, cfg.rr, cfg.ra, cfg.hasRes, cfg.hasAcc, cfg.layout, qexp, dbg),
+		"dbg": fmt.Sprintf("name=%q resources=%q access=%q hasRes=%v hasAcc=%v layout=%d pre=%d queue=%q -> subs=%q", cfg.sn, cfg.rr, cfg.ra, cfg.hasRes, cfg.hasAcc, cfg.layout, cfg.pre, qexp, dbg),
 	}
 	if cfg.rr == nil != (cfg.ra == nil) {
 		// SetOwnedResources(nil, x) leaves one list to the defaults
@@ -427,6 +438,9 @@ func Run(c *core.Ctx) {
 	}
 	var recs []interface{}
 	var kept []config
+	for i := range cfgs {
+		cfgs[i].pre = []int{0, 1, 0, 2, 0, 3}[rng.Intn(6)]
+	}
 	for _, cfg := range cfgs {
 		r, err := observe(cfg)
 		if err != nil {
